@@ -5,3 +5,5 @@
 //! nothing is compiled unless `--cfg eigerco_lumina_verif` is passed.
 
 pub mod ranges;
+pub mod hx;
+pub mod trackers;
